@@ -201,6 +201,36 @@ func bigModels(seed uint64, d dmodel.Dialect) (all, half, aux *dmodel.Model) {
 	return all, half, aux
 }
 
+// cycModels returns two unions that both contain the pool's cyclic foreign-key model (fk resp. its
+// derived variant fk~1: t2 <-> t3 and a self reference) plus two more parts, one of them common to
+// both (so that the swap also MODIFIES tables), with seeded cross keys that may close more cycles.
+func cycModels(seed uint64, d dmodel.Dialect) (a, b *dmodel.Model) {
+	pool := hclOK(dmodel.Pool(d))
+	idx := func(name string) int {
+		for i, m := range pool {
+			if m.Name == name {
+				return i
+			}
+		}
+		return 0
+	}
+	r := rand.New(rand.NewPCG(seed, 0xC7C<<8|uint64(len(d))))
+	pick := func(names ...string) (ms []*dmodel.Model, nums []int) {
+		for _, n := range names {
+			ms = append(ms, pool[idx(n)])
+			nums = append(nums, idx(n))
+		}
+		return
+	}
+	ma, na := pick("fk", "basic", "keys")
+	mb, nb := pick("fk~1", "basic", "checks")
+	a = union(d, "cycA", schemaOf(d), "", ma, na)
+	crossFKs(a, r, false)
+	b = union(d, "cycB", schemaOf(d), "", mb, nb)
+	crossFKs(b, r, false)
+	return a, b
+}
+
 // dagModel is the union of the whole pool with every foreign key that does not point to an EARLIER
 // table removed, plus seeded cross keys to earlier tables only: the reference graph is acyclic, so
 // the planners order the tables by their dependencies instead of detaching all foreign keys (which
@@ -281,6 +311,12 @@ func Inputs(seed uint64, d dmodel.Dialect, nEdit int) []*Input {
 	add(&Input{Name: "create-half", To: half})
 	add(&Input{Name: "half-to-all", From: half, To: all})
 	add(&Input{Name: "all-to-half", From: all, To: half})
+	// small unions whose foreign keys form cycles on BOTH sides, at every seed: created, dropped, and
+	// swapped (drop the tables of one, create the tables of the other, modify the common part).
+	cycA, cycB := cycModels(seed, d)
+	add(&Input{Name: "cyc-create", To: cycA})
+	add(&Input{Name: "cyc-drop", From: cycA})
+	add(&Input{Name: "cyc-swap", From: cycA, To: cycB})
 	dag := dagModel(seed, d)
 	add(&Input{Name: "create-dag", To: dag})
 	add(&Input{Name: "drop-dag", From: dag})
